@@ -154,6 +154,8 @@ func c07(r *Run) {
 
 func c09(r *Run) {
 	w := r.W
+	// blocks accepted while state sync runs reach the window through the syncer's forward path
+	defer r.importRules(c22, "C22.R4")
 	r.rule("C09.R1", "K2", "verification in normal operation checks the replay window before executing; VM passes the normal-operation flag", 4)
 	r.rule("C09.R2", "K1", "builder: IsRepeat per streamed batch, error aborts the batch, flagged transactions skipped before queueing", 3)
 	r.rule("C09.R3", "K6", "admission: repeats rejected with ErrDuplicateTx before PreExecute", 2)
